@@ -141,8 +141,12 @@ def make_virtual_loop(clock):
             return self._vnow
 
         def _run_once(self):
-            if not self._ready and self._scheduled:
-                when = self._scheduled[0]._when
+            live = [h._when for h in self._scheduled if not h._cancelled]
+            if not self._ready and not live and not self._stopping:
+                # nothing can ever wake the loop up again: a real loop would block forever in select()
+                raise RuntimeError("virtual-time loop: nothing ready and no timer scheduled (would block forever)")
+            if not self._ready and live:
+                when = min(live)        # (cancelled timers at the heap top must not hold the clock back)
                 if when > self._vnow:
                     self.virtual_seconds += when - self._vnow
                     clock.advance(when - self._vnow)
@@ -750,6 +754,7 @@ class _Sim(object):
                         ev["raised"] = type(e).__name__
                         ev["raised_by_action"] = True
                     raise
+            ev["completed"] = True
         finally:
             if not ev.get("abandoned"):
                 self.clock.advance(0.05)
